@@ -60,7 +60,7 @@ def subst(e, env):
     return _Sub(env).visit(copy.deepcopy(e)) if env else copy.deepcopy(e)
 
 
-def _loop_mutations(loop):
+def _loop_mutations(loop, refusals=None):
     """[(kind, collection name, payload, conditions)] for a loop whose body is: local single assignments, `if c: continue`
     guards, and mutations of distinct collections, each possibly under if / elif / else arms; None if the loop has another shape"""
     lenv = {}
@@ -106,6 +106,13 @@ def _loop_mutations(loop):
                 continue
             if isinstance(st, ast.If):
                 t = subst(st.test, lenv)
+                if refusals is not None and len(st.body) == 1 and isinstance(st.body[0], ast.Raise):
+                    # `if C: raise ..` [else: REST]: a refusal - a loop that completes passed it for every element, so it does not
+                    # restrict what is collected; recorded (under the conditions that reach it) for the caller to judge
+                    refusals.append((t, list(conds_here)))
+                    if st.orelse and not go(st.orelse, conds_here):
+                        return False
+                    continue
                 if st.body and isinstance(st.body[-1], ast.Continue) and not st.orelse:
                     if not go(st.body[:-1], conds_here + [(t, True)]):
                         return False
